@@ -57,6 +57,7 @@ type vSimTransport struct {
 	down      bool // crashed or shut down: black hole
 	gen       int
 	failSends bool // WriteToAddress returns a local (non-remote) error
+	blackhole bool // down because the whole host is gone: connection attempts are not refused, they go unanswered
 }
 
 // attach creates (or replaces, for a restart) the transport of a node
@@ -86,6 +87,15 @@ func (n *vNet) crash(name string) {
 	n.mu.Lock()
 	if t, ok := n.byName[name]; ok {
 		t.down = true
+	}
+	n.mu.Unlock()
+}
+
+// crashHost: the machine is gone (power, cable): nothing answers at its address, not even with a refusal
+func (n *vNet) crashHost(name string) {
+	n.mu.Lock()
+	if t, ok := n.byName[name]; ok {
+		t.down, t.blackhole = true, true
 	}
 	n.mu.Unlock()
 }
@@ -198,8 +208,8 @@ func (t *vSimTransport) DialAddressTimeout(a Address, timeout time.Duration) (ne
 	n.mu.Lock()
 	dest := n.lookup(a)
 	n.stats.dials++
-	refused := t.down || dest == nil || dest.down
-	blocked := !refused && !n.reachable(t, dest)
+	refused := t.down || dest == nil || (dest.down && !dest.blackhole)
+	blocked := !refused && (!n.reachable(t, dest) || dest.down)
 	var cutAfter int = -1
 	if !refused && !blocked && n.faults.CutProb > 0 && n.rng.Float64() < n.faults.CutProb {
 		cutAfter = n.rng.Intn(600)
